@@ -3,8 +3,11 @@ package main
 // Lifecycle steps of the C05 / C30 histories: close + reload of a persistent swamp.
 
 import (
+	"context"
 	"io"
 	"time"
+
+	"google.golang.org/grpc/metadata"
 
 	hydrapb "github.com/hydraide/hydraide/sdk/go/hydraidego/v3/hydraidepbgo"
 	"google.golang.org/protobuf/proto"
@@ -77,31 +80,43 @@ var filterOps = map[string]hydrapb.Relational_Operator{"eq": hydrapb.Relational_
 	"gt": hydrapb.Relational_GREATER_THAN, "ge": hydrapb.Relational_GREATER_THAN_OR_EQUAL, "lt": hydrapb.Relational_LESS_THAN,
 	"le": hydrapb.Relational_LESS_THAN_OR_EQUAL, "empty": hydrapb.Relational_IS_EMPTY, "notempty": hydrapb.Relational_IS_NOT_EMPTY}
 
-// FilterExp: GetByIndexStream over the key index (ascending) with one filter on ExpiredAt, through the
-// in-process gRPC server (the request and every streamed treasure cross the wire)
+// FilterExp: GetByIndexStream over the key index (ascending) with one filter on ExpiredAt, called on
+// the handler with a transport-less server stream (request and every streamed treasure take the protobuf round trip)
 func filterExp(x *runner, sw string, q Req, line map[string]any) func() (proto.Message, error) {
 	line["fop"], line["ea"] = q.Fop, q.Ea
 	f := &hydrapb.TreasureFilter{Operator: filterOps[q.Fop], CompareValue: &hydrapb.TreasureFilter_ExpiredAtVal{ExpiredAtVal: timestamppb.New(tsOf(q.Ea))}}
 	req := &hydrapb.GetByIndexStreamRequest{IslandID: 1, SwampName: sw, IndexType: hydrapb.IndexType_KEY, OrderType: hydrapb.OrderType_ASC,
 		Filters: &hydrapb.FilterGroup{Logic: hydrapb.FilterLogic_AND, Filters: []*hydrapb.TreasureFilter{f}}}
 	return func() (proto.Message, error) {
-		st, err := x.r.GRPC().GetByIndexStream(x.ctx, req)
-		if err != nil {
+		fs := &fakeStream{ctx: x.ctx}
+		if err := x.r.GW.GetByIndexStream(rig.Wire(req), fs); err != nil {
 			return nil, err
 		}
 		out := &hydrapb.GetByIndexResponse{}
-		for {
-			m, err := st.Recv()
-			if err == io.EOF {
-				return out, nil
-			}
-			if err != nil {
-				return nil, err
-			}
+		for _, m := range fs.out {
 			out.Treasures = append(out.Treasures, m.GetTreasure())
 		}
+		return out, nil
 	}
 }
+
+// fakeStream is the server side of a GetByIndexStream call without a transport: every streamed message goes
+// through the protobuf round trip, as it would on the wire.
+type fakeStream struct {
+	ctx context.Context
+	out []*hydrapb.GetByIndexStreamResponse
+}
+
+func (f *fakeStream) Send(m *hydrapb.GetByIndexStreamResponse) error {
+	f.out = append(f.out, rig.Wire(m))
+	return nil
+}
+func (f *fakeStream) SetHeader(metadata.MD) error  { return nil }
+func (f *fakeStream) SendHeader(metadata.MD) error { return nil }
+func (f *fakeStream) SetTrailer(metadata.MD)       {}
+func (f *fakeStream) Context() context.Context     { return f.ctx }
+func (f *fakeStream) SendMsg(m any) error          { return f.Send(m.(*hydrapb.GetByIndexStreamResponse)) }
+func (f *fakeStream) RecvMsg(m any) error          { return io.EOF }
 
 // closeReload makes the swamp leave memory and returns once that has been OBSERVED:
 //
